@@ -64,6 +64,11 @@ pub(crate) struct GFs {
     pub files: [GFile; NFILES],
     /// keep file contents (needed when data is read back)
     pub track_bytes: bool,
+    /// with track_bytes: do not store the bytes of *writes* (only lengths).
+    /// Set by the image builder: replay harnesses read what the image holds,
+    /// never what the code under test writes, and the byte-copy loop of a
+    /// 27-byte head record would force a large unwinding bound on every loop.
+    pub skip_write_bytes: bool,
     /// write/sync calls may fail symbolically (at most max_faults times)
     pub faults: bool,
     pub n_faults: u8,
@@ -86,6 +91,7 @@ pub(crate) struct GFs {
 pub(crate) static mut FS: GFs = GFs {
     files: [GFILE0; NFILES],
     track_bytes: false,
+    skip_write_bytes: false,
     faults: false,
     n_faults: 0,
     max_faults: 0,
@@ -216,7 +222,7 @@ fn maybe_fault() -> bool {
 
 fn io_fault() -> io::Error {
     // simple (non-boxed) error: cheap drop glue
-    io::Error::from(io::ErrorKind::Other)
+    crate::kani_support::stubs::mk_err(io::ErrorKind::Other)
 }
 
 /// Builds a file image directly in the ghost bytes (no syscall counters, no
@@ -283,7 +289,7 @@ pub(crate) fn op_create(slot: usize) -> io::Result<File> {
     let g = fs();
     let f = &mut g.files[slot];
     if f.exists {
-        return Err(io::Error::from(io::ErrorKind::AlreadyExists));
+        return Err(crate::kani_support::stubs::mk_err(io::ErrorKind::AlreadyExists));
     }
     f.exists = true;
     f.len = 0;
@@ -299,10 +305,11 @@ pub(crate) fn op_open(slot: usize) -> io::Result<File> {
     let g = fs();
     let f = &mut g.files[slot];
     if !f.exists {
-        return Err(io::Error::from(io::ErrorKind::NotFound));
+        return Err(crate::kani_support::stubs::mk_err(io::ErrorKind::NotFound));
     }
     f.pos = 0;
     f.n_open += 1;
+    crate::kani_support::stubs::reset_err();
     Ok(mk_file(slot))
 }
 
@@ -312,7 +319,7 @@ pub(crate) fn op_write(slot: usize, buf: &[u8]) -> io::Result<usize> {
         return Err(io_fault());
     }
     let g = fs();
-    let track = g.track_bytes;
+    let track = g.track_bytes && !g.skip_write_bytes;
     let f = &mut g.files[slot];
     let n = buf.len();
     if track {
@@ -385,6 +392,10 @@ pub(crate) fn op_read(slot: usize, buf: &mut [u8]) -> io::Result<usize> {
     let f = &mut g.files[slot];
     let avail = if f.pos < f.len { f.len - f.pos } else { 0 } as usize;
     let n = if buf.len() < avail { buf.len() } else { avail };
+    if n == 0 && !buf.is_empty() {
+        // read_exact turns this into std's constant UnexpectedEof error
+        unsafe { crate::kani_support::stubs::EOF_SEEN = true };
+    }
     let mut i = 0;
     while i < n {
         let p = f.pos as usize + i;
@@ -424,7 +435,7 @@ pub(crate) fn op_unlink(slot: usize) -> io::Result<()> {
     crate::kani_support::ghost_chan::unlink_monitor(slot);
     let g = fs();
     if !g.files[slot].exists {
-        return Err(io::Error::from(io::ErrorKind::NotFound));
+        return Err(crate::kani_support::stubs::mk_err(io::ErrorKind::NotFound));
     }
     g.files[slot].exists = false;
     if (g.n_unlink as usize) < NFILES {
